@@ -33,13 +33,15 @@ def restore(wt):
 
 
 def run_demo(wt, name):
-    """returns (ok, features_used, tail)"""
-    rc, out = sh("cargo test --offline --test %s 2>&1" % name, wt)
-    feats = ""
+    """returns (ok, features_used, tail); all features first (staking / stargate code only exists with them,
+    and a cfg-gated demo would vacuously pass without), default features if that does not compile"""
+    feats = ALLF + ",verif"
+    rc, out = sh("cargo test --offline --features %s --test %s 2>&1" % (feats, name), wt)
     if rc != 0 and ("error[E" in out or "could not compile" in out):
-        rc, out = sh("cargo test --offline --features %s --test %s 2>&1" % (ALLF, name), wt)
-        feats = ALLF
-    return rc == 0, feats, out[-1500:]
+        rc, out = sh("cargo test --offline --test %s 2>&1" % name, wt)
+        feats = ""
+    ran = sum(int(x) for x in re.findall(r"test result: \w+\. (\d+) passed", out)) + sum(int(x) for x in re.findall(r"passed; (\d+) failed", out))
+    return rc == 0 and ran > 0, feats, out[-1500:]
 
 
 def main():
